@@ -98,6 +98,7 @@ loop:
 				continue loop
 			}
 			bytesRead += len(read.data)
+			verifEntryStart(t)
 			if t.insert(read.data, isFollower, h, read.offset, read.source) {
 				inserted++
 			} else {
@@ -105,6 +106,8 @@ loop:
 				t.skip(read.offset, read.source)
 				skipped++
 			}
+			verifEntryDone(t, read.data, read.offset, read.source)
+			verifPoint("table.entry.done")
 			t.db.walBuffers.Put(read.data)
 			delta := time.Now().Sub(start)
 			if delta > 1*time.Minute {
@@ -258,6 +261,7 @@ func (t *table) doInsert(ts time.Time, dims bytemap.ByteMap, vals bytemap.ByteMa
 		inserted++
 	}
 	for _, subVals := range additionalVals {
+		verifPoint("insert.subvalue")
 		t.rowStore.insert(&insert{key, encoding.NewTSParams(ts, subVals), dims, offset, source})
 	}
 	t.statsMutex.Lock()
